@@ -1,29 +1,37 @@
 """C13 — compound-file streams are recovered whatever the container's physical layout.
-Correspondence: containers (sector size 512 / 4096, storages, named streams) and layouts (placement
-of every FAT / DIFAT / directory / mini-FAT / mini-stream / stream sector, directory slots with
-unused entries, free sectors, surplus table sectors, padding) are generated here, ENCODED by the
-extracted Coq encoder `Cfb.cfb_write` (vm cfb_write), then read by the real code through the hook
-around Cfb::new / has_directory / get_stream (vh cfb) and by the extracted model (vm cfb).
-Spec side: the streams the generator put in.  Every container has a storage hierarchy (parents) and a
-legal MS-CFB sibling tree (links; checked by the model's legal_treeb).  Names are unique per storage
-only: the families dual_format (root Workbook + Book), dup_names (the same name in different storages)
-and xls_e2e (Xls::new + worksheet_range on such containers) exercise the flat name lookup.
-End to end: real .xls fixtures are parsed by a small independent Python reader, re-emitted by the Coq
-encoder under a random layout and opened with Xls::new; worksheet_range of every sheet and
-vba_project() must equal those of the original."""
+Correspondence: containers (sector size 512 / 4096, storages, named streams, the storage that holds
+each object) and layouts (placement of every FAT / DIFAT / directory / mini-FAT / mini-stream / stream
+sector, directory slots with unused entries, free sectors, surplus table sectors, padding, the child /
+sibling ids of every directory entry) are generated here, ENCODED by the extracted Coq encoder
+`Cfb.cfb_write` (vm cfb_write), then read by the real code through the hook around Cfb::new /
+has_directory / find / children / get_stream (vh cfb) and by the extracted model (vm cfb).
+Spec side: the streams the generator put in, BY THEIR PATH from the root storage (names are unique per
+storage only); cross-checked against the extracted specification Cfb.spec_path (vm cfb_spec).
+Link families: a legal MS-CFB sibling tree (random shape), a right-leaning unsorted sibling chain (what
+simple writers produce: linked but not legal), no links at all (the flat scan calamine falls back to:
+the specification then only speaks about names that are unique over the file), and damaged links
+(cycles, shared nodes, ids out of the array, the root as a child: model tie only).
+Families dual_format (root Workbook + Book), dup_names (the same name in different storages, at different
+depths and at the same depth) and xls_e2e (Xls::new + worksheet_range on such containers).
+End to end: real .xls fixtures are parsed by a small independent Python reader (hierarchy included),
+re-emitted by the Coq encoder under a random layout and opened with Xls::new; worksheet_range of every
+sheet and vba_project() must equal those of the original — also with ANOTHER fixture's whole tree
+embedded as an object storage next to it (in any slot order)."""
 import os, struct
 import vlib
 import xlsgen
 
 ASSUMPTIONS = [
     "object names: 1..31 UTF-16 units, no NUL, different from the root entry's name, unique per STORAGE (MS-CFB 2.6.1), not over the whole "
-    "file: containers holding the same name in different storages are generated (families dup_names, xls_e2e); calamine looks a name up "
-    "in the flat directory array, which is right under the precondition first_slot (Cfb.v): no object (stream or storage, in any storage) "
-    "with the same name sits in a lower directory slot than the wanted one; outside it the case counts as class shadowed_name / shadowed_workbook",
+    "file: containers holding the same name in different storages are generated (families dup_names, xls_e2e, random with dups)",
+    "a lookup is by PATH from the root storage (Cfb::find since the fix of audit finding G8): demanded whenever the links are a tree over "
+    "the container's hierarchy (Cfb.linked_treeb: legal MS-CFB order or not); with no hierarchy written (root child id = NOSTREAM) the code "
+    "scans the flat array for the last name of the path: demanded for names that are unique over the file; damaged links: model tie only",
     "stream sizes below 2^32 (the model's lists; version-4 files may declare more)",
     "the reader is a Cursor over the whole file (std::io::Read returning everything up to EOF)",
-    "hierarchy: every generated container carries a legal sibling/child tree (MS-CFB 2.6.4 order: UTF-16 length, then code units with a-z "
-    "upper-cased only; node colours not modelled, all black); calamine never reads the links",
+    "MS-CFB 2.6.4 order for the legal trees: UTF-16 length, then code units with a-z upper-cased only; node colours not modelled, all black",
+    "a root STORAGE named Workbook (or Book) is outside the domain of the Xls::new statements (the code takes any root entry of that name, "
+    "storage or stream; Properties/C13.v states the hypothesis): generated, model tie only",
 ]
 
 EOC, FREE = 0xFFFFFFFE, 0xFFFFFFFF
@@ -196,11 +204,17 @@ def gen_parents(rng, nstor, nstream):
     ps += [rng.randrange(0, nstor + 1) if rng.random() < 0.6 else 0 for _ in range(nstream)]
     return ps
 
-def gen_links(rng, storages, streams, parents, slots):
-    """a legal MS-CFB tree for the hierarchy `parents`: per storage (root included) the children sorted by
-    cfb_key form a binary search tree of RANDOM shape; the storage's child id is the slot of the tree's top,
-    left / right are slots.  Returns the (left, right, child) triples of the root entry, the storages, the
-    streams (order of `slots`)."""
+LINK_MODES = ["legal", "legal", "legal", "chain", "none"]
+
+def gen_links(rng, storages, streams, parents, slots, mode="legal"):
+    """(left, right, child) triples of the root entry, the storages, the streams (order of `slots`).
+    legal: per storage (root included) the children sorted by cfb_key form a binary search tree of RANDOM
+           shape; the storage's child id is the slot of the tree's top;
+    chain: per storage the children in RANDOM order as a right-leaning chain (child -> right -> right ...),
+           sometimes left-leaning: a tree, not in the MS-CFB order;
+    none : every id NOSTREAM (returned as None: nothing is written)"""
+    if mode == "none":
+        return None
     names = list(storages) + [n for n, _ in streams]
     n = len(names)
     links = [[NOSTREAM, NOSTREAM, NOSTREAM] for _ in range(n + 1)]        # 0 = root entry, k + 1 = object k
@@ -213,9 +227,60 @@ def gen_links(rng, storages, streams, parents, slots):
         links[k + 1][1] = build(objs[r + 1:])
         return slots[k]
     for p in range(len(storages) + 1):                                    # storage p is object p - 1: links[p]
-        kids = sorted((k for k in range(n) if parents[k] == p), key=lambda k: cfb_key(names[k]))
-        links[p][2] = build(kids)
+        kids = [k for k in range(n) if parents[k] == p]
+        if mode == "legal":
+            kids.sort(key=lambda k: cfb_key(names[k]))
+            links[p][2] = build(kids)
+        else:
+            rng.shuffle(kids)
+            side = 1 if rng.random() < 0.8 else 0
+            for a, b in zip(kids, kids[1:]):
+                links[a + 1][side] = slots[b]
+            links[p][2] = slots[kids[0]] if kids else NOSTREAM
     return [tuple(t) for t in links]
+
+def damage_links(rng, c):
+    """links that are NOT a tree over the hierarchy: cycles, shared nodes, dangling ids, the root as a child, a
+    child id on a stream, a dropped subtree.  Returns the kind."""
+    n = len(c.storages) + len(c.streams)
+    links = [list(t) for t in (c.links or [(NOSTREAM,) * 3] * (n + 1))]
+    slots = [0] + list(c.lay["slots"])
+    nsl = nslots_of(c)
+    kind = rng.choice(["self", "cycle", "shared", "dangling", "root_child", "to_root", "stream_child", "unused_slot", "drop", "random"])
+    i = rng.randrange(0, n + 1)
+    f = rng.randrange(0, 3)
+    if kind == "self":
+        links[i][f] = slots[i]
+    elif kind == "cycle":
+        j = rng.randrange(0, n + 1)
+        links[i][f] = slots[j]
+        links[j][rng.randrange(0, 3)] = slots[i]
+    elif kind == "shared":
+        links[i][f] = slots[rng.randrange(0, n + 1)]
+    elif kind == "dangling":
+        links[i][f] = rng.choice([nsl, nsl + 1, 0x7FFFFFFF, 0xFFFFFFFE, 0xFFFFFFFD, 1 << 31, nsl * 128])
+    elif kind == "root_child":
+        links[0][2] = rng.choice([0, 0, nsl, NOSTREAM, slots[rng.randrange(0, n + 1)]])
+    elif kind == "to_root":
+        links[i][f] = 0
+    elif kind == "stream_child":
+        if c.streams:
+            k = len(c.storages) + rng.randrange(len(c.streams))
+            links[k + 1][2] = slots[rng.randrange(0, n + 1)]
+    elif kind == "unused_slot":
+        free = [x for x in range(1, nsl) if x not in slots]
+        links[i][f] = rng.choice(free) if free else nsl
+    elif kind == "drop":
+        links[i][f] = NOSTREAM
+    else:
+        for _ in range(rng.randrange(1, 4)):
+            links[rng.randrange(0, n + 1)][rng.randrange(0, 3)] = rng.choice(
+                [NOSTREAM, 0, rng.randrange(0, nsl + 2), slots[rng.randrange(0, n + 1)]])
+    c.links = [tuple(t) for t in links]
+    c.linkmode = "damaged"
+    c.tag = "damaged_links"
+    c.damage = kind
+    return kind
 
 def write_line(cid, ss, storages, streams, lay, parents=None, links=None):
     st = ";".join(hx(n) for n in storages) or "-"
@@ -233,32 +298,56 @@ def wl(c):
 def nslots_of(c):
     return len(c.lay["dir"]) * (c.ss // 128)
 
-def finish_case(rng, c, mode=None, force_nfat=None, surplus=True, random_slots=0.0):
-    """layout + legal tree for a case whose storages / streams / parents are set"""
+def finish_case(rng, c, mode=None, force_nfat=None, surplus=True, random_slots=0.0, linkmode=None):
+    """layout + links for a case whose storages / streams / parents are set"""
     c.lay = gen_layout(rng, c.ss, c.storages, c.streams, mode=mode, force_nfat=force_nfat, surplus=surplus)
     n = len(c.storages) + len(c.streams)
     if random_slots and rng.random() < random_slots:
         c.lay["slots"] = rng.sample(range(1, nslots_of(c)), n)
-    c.links = gen_links(rng, c.storages, c.streams, c.parents, c.lay["slots"])
-    c.legal_meant = True
+    c.linkmode = linkmode or rng.choice(LINK_MODES)
+    c.links = gen_links(rng, c.storages, c.streams, c.parents, c.lay["slots"], c.linkmode)
     return c
 
-def make_case(rng, cid, ss, sizes=None, nstor=None, mode=None, force_nfat=None, names=None, surplus=True, tag="random"):
-    used = set()
+def gen_names_for(rng, parents, nstor, pool_st, dups):
+    """names for nstor storages and the streams: unique per storage (up to the case of a-z); with `dups` the same
+    name may come back in another storage, else every name is unique over the file"""
+    per = {}
+    glob = set()
+    names = []
+    for k, p in enumerate(parents):
+        used = per.setdefault(p, set()) if dups else glob
+        if k < nstor:
+            for _ in range(100):
+                n = rng.choice(pool_st) if rng.random() < 0.8 else gen_name(rng, set())
+                if ukey(n) not in used:
+                    break
+            else:
+                raise RuntimeError("storage name generation")
+            used.add(ukey(n))
+        else:
+            n = gen_name(rng, used)
+        names.append(n)
+    return names
+
+def make_case(rng, cid, ss, sizes=None, nstor=None, mode=None, force_nfat=None, names=None, surplus=True, tag="random",
+              linkmode=None, dups=None):
     c = Case()
     c.cid, c.ss, c.tag = cid, ss, tag
     if sizes is None:
         sizes = [gen_size(rng, ss) for _ in range(rng.randrange(0, 7))]
-    c.storages = [n for n in rng.sample(STORAGE_POOL, nstor if nstor is not None else rng.choice([0, 0, 1, 2]))]
-    used.update(ukey(n) for n in c.storages)
+    nst = nstor if nstor is not None else rng.choice([0, 0, 1, 2, 3])
+    c.parents = gen_parents(rng, nst, len(sizes))
+    if dups is None:
+        dups = rng.random() < 0.4
+    nm = gen_names_for(rng, c.parents, nst, STORAGE_POOL, dups)
+    c.storages = nm[:nst]
     c.streams = []
     for k, sz in enumerate(sizes):
-        n = names[k] if names else gen_name(rng, used)
+        n = names[k] if names else nm[nst + k]
         c.streams.append((n, gen_bytes(rng, sz)))
-    c.parents = gen_parents(rng, len(c.storages), len(c.streams))
-    return finish_case(rng, c, mode=mode, force_nfat=force_nfat, surplus=surplus)
+    return finish_case(rng, c, mode=mode, force_nfat=force_nfat, surplus=surplus, linkmode=linkmode)
 
-# ------------------------------------------------------------------ names that are not unique over the file
+# ------------------------------------------------------------------ specification side: lookups by path
 def all_names(c):
     return list(c.storages) + [n for n, _ in c.streams]
 
@@ -269,89 +358,155 @@ def depth_of(c, k):
         d += 1
     return d
 
-def path_of(c, k):
+def names_path(c, k):
+    """the names from the root storage down to object k"""
     names = all_names(c)
     out = [names[k]]
     while c.parents[k] != 0:
         k = c.parents[k] - 1
         out.append(names[k])
-    return "/".join(repr(x)[1:-1] for x in reversed(out))
+    return list(reversed(out))
 
-def name_table(c):
-    """name -> {objs, wanted, lowest}: the objects (indexes in storages + streams) carrying the name; the WANTED
-    one = the only one if the name is unique, else the one whose chain of parents up to the root is the
-    shortest (None when several are that close: nothing is demanded); lowest = the one in the lowest slot,
-    the one a scan of the flat directory array meets first"""
-    tbl = {}
-    for k, n in enumerate(all_names(c)):
-        tbl.setdefault(n, {"objs": []})["objs"].append(k)
-    slots = c.lay["slots"]
-    for n, e in tbl.items():
-        objs = e["objs"]
-        if len(objs) == 1:
-            e["wanted"] = e["lowest"] = objs[0]
-            continue
-        ds = [depth_of(c, k) for k in objs]
-        best = [k for k, d in zip(objs, ds) if d == min(ds)]
-        e["wanted"] = best[0] if len(best) == 1 else None
-        e["lowest"] = min(objs, key=lambda k: slots[k])
-    return tbl
+def path_of(c, k):
+    return "/".join(repr(x)[1:-1] for x in names_path(c, k))
+
+def resolve(c, path):
+    """object index (None = the root storage itself) reached by following `path` from the root, or "none" """
+    names = all_names(c)
+    p = 0
+    obj = None
+    for nm in path:
+        ks = [k for k in range(len(names)) if names[k] == nm and c.parents[k] == p]
+        if not ks:
+            return "none"
+        obj = ks[0]
+        p = obj + 1
+    return obj
+
+def regime(c):
+    """tree: the links are a tree over the hierarchy and the root has a child: lookups by path are demanded;
+    flat: no hierarchy written: lookups by (last) name, demanded for names unique over the file;
+    damaged: model tie only"""
+    if not c.valid:
+        return "invalid"
+    if c.flat:
+        return "flat"
+    if c.linked:
+        return "tree"
+    return "damaged"
+
+def ppath(path):
+    return "/".join(hx(n) for n in path)
 
 def ops_for(rng, c, absent=True):
+    """[(kind, argument, expected or None)]; kinds h (has_directory), p (find), g (get_stream), c (children), n"""
+    nst = len(c.storages)
+    names = all_names(c)
+    reg = regime(c)
+    slots = c.lay["slots"]
     ops = []
-    seen = set()
-    for n in c.storages:
-        if n not in seen:
-            seen.add(n)
-            ops.append(("h", n))
-    order = []
-    for n, b in c.streams:
-        if n not in [x for x, _ in order]:
-            order.append((n, b))
+    def count(nm):
+        return sum(1 for x in names if x == nm)
+    def exp_g(path):
+        if reg == "tree":
+            o = resolve(c, path)
+            if o == "none":
+                return "err:notfound"
+            if o is None or o < nst:
+                return None                       # a storage / the root entry: nothing demanded
+            return "ok:" + c.streams[o - nst][1].hex()
+        if reg == "flat" and path:
+            nm = path[-1]
+            if nm in ("Root Entry", ""):
+                return None
+            if count(nm) == 0:
+                return "err:notfound"
+            if count(nm) == 1 and names.index(nm) >= nst:
+                return "ok:" + c.streams[names.index(nm) - nst][1].hex()
+        return None
+    def exp_p(path):
+        if reg == "tree":
+            return "0" if resolve(c, path) == "none" else "1"
+        if reg == "flat" and path and path[-1] not in ("Root Entry", ""):
+            return "1" if count(path[-1]) else "0"
+        return None
+    # children of the root and of every storage
+    meant = c.valid and c.linkmode in ("legal", "chain") and c.linked
+    for q in [0] + list(range(1, nst + 1)):
+        sl = 0 if q == 0 else slots[q - 1]
+        kids = sorted(slots[k] for k in range(len(names)) if c.parents[k] == q)
+        ops.append(("c", str(sl), ("set:" + ",".join(map(str, kids))) if meant else ("set:" if c.linkmode == "none" else None)))
+    if c.streams and rng.random() < 0.5:
+        k = nst + rng.randrange(len(c.streams))
+        ops.append(("c", str(slots[k]), "set:" if (meant or c.linkmode == "none") else None))
+    ops.append(("c", str(rng.choice([nslots_of(c), nslots_of(c) + 7, 4294967295])), "set:"))
+    # has_directory: an entry of the root storage
+    for nm in dict.fromkeys(names):
+        ops.append(("h", nm, exp_p([nm])))
+    for k in range(nst):
+        ops.append(("p", names_path(c, k), exp_p(names_path(c, k))))
+    order = list(range(nst, len(names)))
     rng.shuffle(order)
-    for n, b in order:
-        ops.append(("h", n))
-        ops.append(("g", n))
+    for k in order:
+        path = names_path(c, k)
+        if rng.random() < 0.5:
+            ops.append(("p", path, exp_p(path)))
+        ops.append(("g", path, exp_g(path)))
+        if len(path) > 1 and rng.random() < 0.5:
+            # the bare name of a nested stream: an entry of the ROOT storage is asked for
+            ops.append(("g", path[-1:], exp_g(path[-1:])))
+        if rng.random() < 0.2:
+            q = path[:-1] + ["No Such Stream"] if rng.random() < 0.5 else ["No Such Storage"] + path
+            ops.append(("g", q, exp_g(q)))
     if order and rng.random() < 0.5:           # read again (sector cache already filled)
-        ops.append(("g", order[0][0]))
+        path = names_path(c, order[0])
+        ops.append(("g", path, exp_g(path)))
     if absent:
-        ops.append(("h", "No Such Stream"))
-        ops.append(("g", "No Such Stream"))
-    ops.append(("n", ""))
+        ops.append(("h", "No Such Stream", exp_p(["No Such Stream"])))
+        ops.append(("g", ["No Such Stream"], exp_g(["No Such Stream"])))
+        ops.append(("p", [], "1" if reg == "tree" and names else ("0" if reg == "flat" else None)))
+    ops.append(("n", "", None))
     return ops
 
 def ops_text(ops):
-    return ";".join("n" if k == "n" else "%s:%s" % (k, hx(n)) for k, n in ops)
-
-def spec_answers(c, ops, tbl=None):
-    """what every op must answer (None: nothing demanded).  has_directory: 1 for every name some object of
-    the file carries.  get_stream: the bytes of the wanted object of that name (see name_table) when it is
-    a stream; names are unique per storage only, so several objects may carry the name."""
-    tbl = tbl or name_table(c)
-    nst = len(c.storages)
-    out = ["new=ok"]
-    for k, n in ops:
-        e = tbl.get(n)
-        if k == "h":
-            out.append("1" if e else "0")
-        elif k == "g":
-            if e is None:
-                out.append("err:notfound")
-            elif e["wanted"] is None or e["wanted"] < nst:
-                out.append(None)           # a storage, or no entry is distinguished: nothing demanded
-            else:
-                out.append("ok:" + c.streams[e["wanted"] - nst][1].hex())
+    out = []
+    for k, a, _ in ops:
+        if k == "n":
+            out.append("n")
+        elif k == "h":
+            out.append("h:" + hx(a))
+        elif k == "c":
+            out.append("c:" + a)
         else:
-            out.append(None)
-    return out
+            out.append("%s:%s" % (k, ppath(a)))
+    return ";".join(out)
+
+def op_describe(op):
+    k, a, _ = op
+    return {"h": "has_directory(%r)", "p": "find(%r).is_some()", "g": "get_stream(%r)", "c": "children(%s)", "n": "names%s"}[k] % (a,)
+
+def matches(exp, got):
+    if exp is None:
+        return True
+    if exp.startswith("set:"):
+        if not got.startswith("c:"):
+            return False
+        want = sorted(x for x in exp[4:].split(",") if x)
+        have = sorted(x for x in got[2:].split(",") if x)
+        return want == have
+    return exp == got
 
 def root_workbook(c):
-    """(index in streams, bytes) of the stream Excel means: Workbook of the root storage, else Book of the root storage"""
+    """bytes of the stream Excel means: Workbook of the root storage, else Book of the root storage; "storage" when the
+    root holds a STORAGE of the name asked first (outside the domain of the statement)"""
     nst = len(c.storages)
     for nm in ("Workbook", "Book"):
-        for k, (n, b) in enumerate(c.streams):
-            if n == nm and c.parents[nst + k] == 0:
-                return k, b
+        o = resolve(c, [nm])
+        if o == "none":
+            continue
+        if o < nst:
+            return "storage"
+        return c.streams[o - nst][1]
     return None
 
 def same_outcome(i, m):
@@ -372,23 +527,33 @@ def same_outcome(i, m):
     return True
 
 def parse_written(ans):
-    """answer of vm cfb_write -> dict(file, valid, known, fuel, legal, unique) or None"""
+    """answer of vm cfb_write -> dict(file, valid, known, fuel, legal, unique, linked, flat) or None"""
     f = (ans or "").split("|")
-    if len(f) != 6:
+    if len(f) != 8:
         return None
-    return {"file": f[0], "valid": f[1] == "1", "known": f[2], "fuel": f[3], "legal": f[4] == "1", "unique": f[5] == "1"}
+    return {"file": f[0], "valid": f[1] == "1", "known": f[2], "fuel": f[3], "legal": f[4] == "1", "unique": f[5] == "1",
+            "linked": f[6] == "1", "flat": f[7] == "1"}
+
+def take_written(c, f):
+    c.file, c.valid, c.known, c.fuel = f["file"], f["valid"], f["known"], f["fuel"]
+    c.legal, c.unique, c.linked, c.flat = f["legal"], f["unique"], f["linked"], f["flat"]
 
 def check_written(ctx, c, line):
-    """generator vs model on what the generator meant: valid layout, legal tree, global uniqueness flag"""
+    """generator vs model on what the generator meant: valid layout, kind of links, global uniqueness flag"""
     ok = True
     if not c.valid:
         if c.tag != "invalid":
             ctx.disagreements.append({"function": "valid_layoutb(generator)", "case": line[:20000], "impl": "(n/a)",
                                       "model": "valid=0 for a layout the generator meant to be valid"})
         ok = False
-    if not c.legal and getattr(c, "legal_meant", True):
-        ctx.disagreements.append({"function": "legal_treeb(generator)", "case": line[:20000], "impl": "(n/a)",
-                                  "model": "legal=0 for links the generator meant to be a legal MS-CFB tree"})
+    n = len(c.storages) + len(c.streams)
+    want = {"legal": (True, True, n == 0), "chain": (None, True, n == 0), "none": (n == 0, n == 0, True)}.get(c.linkmode)
+    if want:
+        got = (c.legal, c.linked, c.flat)
+        for nm, w, g in zip(("legal_treeb", "linked_treeb", "flat_rootb"), want, got):
+            if w is not None and w != g:
+                ctx.disagreements.append({"function": nm + "(generator)", "case": line[:20000], "impl": "(n/a)",
+                                          "model": "%s=%d for links the generator wrote in mode %s (%d objects)" % (nm, g, c.linkmode, n)})
     names = all_names(c)
     if c.unique != (len(set(names)) == len(names)):
         ctx.disagreements.append({"function": "names_uniqueb(generator)", "case": line[:20000], "impl": "(n/a)",
@@ -396,36 +561,43 @@ def check_written(ctx, c, line):
     return ok
 
 def check_w(ctx, c, w_ans, line):
-    """the model-only op w (= the bytes Xls::parse_workbook reads) against the specification (the root storage's
-    Workbook, else its Book) and against the model's own classifier known_C13"""
+    """the model-only op w (= the bytes Xls::parse_workbook reads) against the specification: the root storage's
+    Workbook, else its Book — wherever embedded objects sit in the directory array"""
+    reg = regime(c)
+    if reg != "tree":
+        ctx.count("w:regime_" + reg)
+        return
     rw = root_workbook(c)
     if rw is None:
         ctx.count("w:no_root_workbook")
-        if c.known != "-":
-            ctx.disagreements.append({"function": "known_C13(model)", "case": line[:20000], "impl": "(n/a)",
-                                      "model": "known=%s although the root storage has neither Workbook nor Book" % c.known})
-        return
-    exp = "ok:" + rw[1].hex()
-    nst = len(c.storages)
-    if c.tag == "dual_format":
-        ctx.count("w:dual_format")
-        if w_ans != exp or c.known != "-":
+        if w_ans != "err:notfound":
             ctx.disagreements.append({"function": "workbook_or_book(model vs spec)", "case": line[:20000], "impl": "(n/a)",
-                                      "model": "known=%s w=%s; the root storage's %s is %s" % (c.known, w_ans[:200], c.streams[rw[0]][0], exp[:200])})
-    elif c.known == "-":
-        ctx.count("w:root_workbook_read")
-        if w_ans != exp:
-            ctx.disagreements.append({"function": "known_C13(model)", "case": line[:20000], "impl": "(n/a)",
-                                      "model": "known=- but w=%s is not the root storage's %s %s" % (w_ans[:200], c.streams[rw[0]][0], exp[:200])})
-    else:
-        ctx.count("w:" + c.known)
-        # the entry reached instead must show in the bytes: only demanded when no other Workbook / Book object
-        # has the same content as the wanted one (a storage reads as the empty stream)
-        others = [(b"" if k < nst else c.streams[k - nst][1]) for k, n in enumerate(all_names(c))
-                  if n in ("Workbook", "Book") and k != nst + rw[0]]
-        if rw[1] not in others and w_ans == exp:
-            ctx.disagreements.append({"function": "known_C13(model)", "case": line[:20000], "impl": "(n/a)",
-                                      "model": "known=%s but w is the root storage's %s" % (c.known, c.streams[rw[0]][0])})
+                                      "model": "w=%s although the root storage has neither Workbook nor Book" % w_ans[:200]})
+        return
+    if rw == "storage":
+        ctx.count("w:root_storage_named_workbook(out of domain)")
+        return
+    ctx.count("w:root_workbook_read")
+    others = sum(1 for n in all_names(c) if n in ("Workbook", "Book")) - 1
+    if others:
+        ctx.count("w:root_workbook_read_among_%s_other_Workbook_or_Book" % ("1" if others == 1 else "2+"))
+    exp = "ok:" + rw.hex()
+    if w_ans != exp:
+        ctx.disagreements.append({"function": "workbook_or_book(model vs spec)", "case": line[:20000], "impl": "(n/a)",
+                                  "model": "w=%s; the root storage's workbook stream is %s" % (w_ans[:200], exp[:200])})
+
+def spec_lines(cases):
+    """vm cfb_spec: the extracted specification Cfb.spec_path on every path a g op asks for"""
+    out = []
+    for c in cases:
+        if getattr(c, "no_model_read", False):
+            continue
+        paths = [a for k, a, _ in c.ops if k == "g"]
+        st = ";".join(hx(n) for n in c.storages) or "-"
+        sm = ";".join("%s:%s" % (hx(n), b.hex() or "-") for n, b in c.streams) or "-"
+        pa = ",".join(str(p) for p in c.parents) if c.parents else "-"
+        out.append("S%s\tcfb_spec\t%d\t%s\t%s\t%s\t%s" % (c.cid, c.ss, st, sm, pa, ";".join(ppath(a) for a in paths) or "-"))
+    return out
 
 def run_cases(ctx, cases, rng):
     """encode with the extracted encoder; read with the code and the model; three-way compare"""
@@ -437,7 +609,7 @@ def run_cases(ctx, cases, rng):
         if f is None:
             ctx.disagreements.append({"function": "cfb_write", "case": wl(c)[:3000], "impl": "(n/a)", "model": a[:200]})
             continue
-        c.file, c.valid, c.known, c.fuel, c.legal, c.unique = f["file"], f["valid"], f["known"], f["fuel"], f["legal"], f["unique"]
+        take_written(c, f)
         c.ops = ops_for(rng, c)
         c.line = "%s\tcfb\t%s\t%s\t%s" % (c.cid, c.file, c.fuel, ops_text(c.ops))
         lines.append(c.line)
@@ -448,6 +620,7 @@ def run_cases(ctx, cases, rng):
     impl = ctx.run_impl(lines)
     # the model also answers the model-only op w (what Xls::parse_workbook would read), sent last
     model = ctx.run_model([l + ";w" for l in lines if l.split("\t", 1)[0] not in skip_model])
+    specm = ctx.run_model(spec_lines(meta.values()))
     for cid, c in meta.items():
         i, m = impl.get(cid), model.get(cid)
         w_ans = None
@@ -458,8 +631,11 @@ def run_cases(ctx, cases, rng):
         if cid in skip_model:
             m = i
             ctx.count("model_read_skipped(big file)")
+        reg = regime(c)
         ctx.traces += 1
         ctx.count("tag:" + c.tag)
+        ctx.count("links:" + c.linkmode + ("(" + c.damage + ")" if getattr(c, "damage", None) else ""))
+        ctx.count("regime:" + reg)
         ctx.count("sector_size:%d" % c.ss)
         ctx.count("layout:" + c.lay["mode"])
         ctx.count("fat_sectors:" + ("1" if len(c.lay["fat"]) == 1 else "2..109" if len(c.lay["fat"]) <= 109 else ">109"))
@@ -475,46 +651,54 @@ def run_cases(ctx, cases, rng):
                     "file_bytes": len(c.file) // 2})
         gl = wl(c)
         if not same_outcome(i, m):
-            ctx.disagreements.append({"function": "Cfb::new/get_stream", "case": c.line[:200000], "impl": (i or "")[:2000],
+            ctx.disagreements.append({"function": "Cfb::new/find/get_stream", "case": c.line[:200000], "impl": (i or "")[:2000],
                                       "model": (m or "")[:2000], "generator": gl[:20000]})
-        if not check_written(ctx, c, gl):
+        if c.tag == "invalid" or not check_written(ctx, c, gl):
             continue
-        tbl = name_table(c)
+        names = all_names(c)
         nst = len(c.storages)
+        # duplicate names: how they sit (the statistics the evidence shows)
+        for nm in set(names):
+            objs = [k for k, x in enumerate(names) if x == nm]
+            if len(objs) > 1 and reg == "tree":
+                ds = sorted(depth_of(c, k) for k in objs)
+                ctx.count("dup:same_depth" if ds[0] == ds[1] else "dup:different_depth")
+                want = min(objs, key=lambda k: depth_of(c, k))
+                low = min(objs, key=lambda k: c.lay["slots"][k])
+                ctx.count("dup:closest_to_root_in_lowest_slot" if want == low else "dup:closest_to_root_not_in_lowest_slot")
         if c.tag == "dual_format":
-            sl = {n: c.lay["slots"][nst + k] for k, (n, _) in enumerate(c.streams) if n in ("Workbook", "Book")}
+            sl = {n: c.lay["slots"][nst + k] for k, (n, _) in enumerate(c.streams) if n in ("Workbook", "Book") and c.parents[nst + k] == 0}
             ctx.count("dual:book_only" if "Workbook" not in sl else
                       "dual:book_first" if sl["Book"] < sl["Workbook"] else "dual:workbook_first")
-        for n, e in tbl.items():
-            if len(e["objs"]) > 1 and e["wanted"] is not None and e["wanted"] >= nst:
-                ctx.count("dup:wanted_first" if e["wanted"] == e["lowest"] else "dup:shadowed")
-        if c.known != "-":
-            ctx.count("container_known:" + c.known)
         if w_ans is not None:
             check_w(ctx, c, w_ans, gl)
-        spec = spec_answers(c, c.ops, tbl)
+        # the Python reading of the specification against the extracted Cfb.spec_path
+        sm = specm.get("S" + cid)
+        if sm is not None and reg == "tree":
+            gops = [(a, e) for k, a, e in c.ops if k == "g"]
+            sf = sm.split(";") if sm else []
+            for (a, e), x in zip(gops, sf):
+                tr = {"none": "err:notfound", "storage": None, "root": None}.get(x, x)
+                if tr != e:
+                    ctx.disagreements.append({"function": "spec_path(generator vs Cfb.spec_path)", "case": gl[:20000], "impl": "(n/a)",
+                                              "model": "path %r: Cfb.spec_path says %s, the generator %s" % (a, x[:100], (e or "None")[:100])})
+                    break
         got = (i or "").split(";")
         bad = None
-        for k, s in enumerate(spec):
-            if s is None:
+        for k, op in enumerate(c.ops):
+            e = op[2]
+            if e is None:
                 continue
-            g = got[k] if k < len(got) else "(missing)"
-            e = tbl.get(c.ops[k - 1][1]) if (k >= 1 and c.ops[k - 1][0] == "g") else None
-            shadowed = bool(e) and len(e["objs"]) > 1 and e["wanted"] != e["lowest"]
-            if g == s:
-                if shadowed:
-                    # (the model scans the flat array: it then differs from the code, a disagreement above)
-                    ctx.count("dup:shadowed_but_read_correctly")
-                continue
-            if shadowed:
-                # class shadowed_name: an object of another storage with the same name sits in a lower slot
-                ctx.count("known_class:shadowed_name")
-                ctx.known_hits["shadowed_name"] = {"case": gl[:4000], "expected": s[:200], "actual": g[:200]}
-                continue
-            if bad is None:
-                bad = (k, s, g)
+            g = got[k + 1] if k + 1 < len(got) else "(missing)"
+            if op[0] == "g" and reg == "tree" and e.startswith("ok:"):
+                ctx.count("spec:stream_by_path_depth_%d" % (len(op[1]) - 1))
+            if not matches(e, g):
+                bad = (k, e, g)
+                break
+        if got[0] != "new=ok":
+            bad = (-1, "new=ok", got[0])
         if bad:
-            k, s, g = bad
+            k, e, g = bad
             gen_note = ""
             if len(c.line) > 400000:
                 # too big for a replay file: keep the generator command in a side file
@@ -522,15 +706,17 @@ def run_cases(ctx, cases, rng):
                 os.makedirs(os.path.dirname(gp), exist_ok=True)
                 open(gp, "w").write(gl + "\n" + ops_text(c.ops) + "\n")
                 gen_note = " [generator file %s]" % gp
-            what = "open" if k == 0 else "%s(%r)" % ({"h": "has_directory", "g": "get_stream"}[c.ops[k - 1][0]], c.ops[k - 1][1])
+            what = "open" if k < 0 else op_describe(c.ops[k])
             dup = ""
-            if k >= 1 and len(tbl.get(c.ops[k - 1][1], {"objs": []})["objs"]) > 1:
-                e = tbl[c.ops[k - 1][1]]
-                dup = " [the name is carried by %s; wanted %s, which is in the lowest slot of them]" % (
-                    ", ".join("%s (slot %d)" % (path_of(c, o), c.lay["slots"][o]) for o in e["objs"]), path_of(c, e["wanted"]))
-            ctx.violations.append({"case": c.line[:400000], "expected": s[:4000], "actual": g[:4000], "model": (m or "")[:4000],
-                                   "what": "%s on a valid container (ss=%d, stream sizes %s, layout %s)%s%s: generator line %s" % (
-                                       what, c.ss, [len(b) for _, b in c.streams], c.lay["mode"], dup, gen_note, gl[:3000])})
+            if k >= 0 and c.ops[k][0] in ("g", "p", "h"):
+                nm = c.ops[k][1] if c.ops[k][0] == "h" else (c.ops[k][1][-1] if c.ops[k][1] else "")
+                objs = [o for o, x in enumerate(names) if x == nm]
+                if len(objs) > 1:
+                    dup = " [the name is carried by %s]" % ", ".join("%s (slot %d)" % (path_of(c, o), c.lay["slots"][o]) for o in objs)
+            ctx.violations.append({"case": c.line[:400000], "expected": e[:4000], "actual": g[:4000], "model": (m or "")[:4000],
+                                   "op_index": k + 1,
+                                   "what": "%s on a valid container (ss=%d, stream sizes %s, layout %s, links %s, regime %s)%s%s: generator line %s" % (
+                                       what, c.ss, [len(b) for _, b in c.streams], c.lay["mode"], c.linkmode, reg, dup, gen_note, gl[:3000])})
 
 # ------------------------------------------------------------------ structured / boundary cases
 def boundary_cases(rng, tier):
@@ -589,20 +775,20 @@ def dual_case(rng, cid, ss, book_only=False):
     rng.shuffle(items)                       # (sequential layouts give slots in this order)
     c.streams = [(n, b) for n, b, _ in items]
     c.parents = gen_parents(rng, len(c.storages), 0) + [p for _, _, p in items]
-    return finish_case(rng, c, random_slots=0.5)
+    return finish_case(rng, c, random_slots=0.5, linkmode=rng.choice(["legal", "legal", "chain", "none"]))
 
 def dual_cases(rng, n):
     return [dual_case(rng, "da%d" % k, rng.choice([512, 512, 4096]), book_only=(k % 5 == 4)) for k in range(n)]
 
 # ------------------------------------------------------------------ family B: one name in several storages
 def dup_case(rng, cid, ss):
-    """duplicate names in DIFFERENT storages (legal: MS-CFB names are unique per storage).  All contents are
-    different and non-empty, so an answer tells which entry was read."""
+    """duplicate names in DIFFERENT storages (legal: MS-CFB names are unique per storage), at different depths
+    and at the same depth.  All contents are different and non-empty, so an answer tells which entry was read."""
     c = Case()
     c.cid, c.ss, c.tag = cid, ss, "dup_names"
     taken = set()
     content = lambda: distinct_bytes(rng, gen_size(rng, ss), taken, nonempty=True)
-    shape = rng.choice(["wb_mbd", "wb_mbd", "book_mbd", "vba2", "vba2"])
+    shape = rng.choice(["wb_mbd", "wb_mbd", "book_mbd", "vba2", "vba2", "vba_same_depth", "mbd_same_depth", "wb_storage"])
     c.shape = shape
     if shape == "wb_mbd":
         # an embedded workbook object: MBD0001/Workbook next to the root's Workbook
@@ -619,9 +805,9 @@ def dup_case(rng, cid, ss):
         # a BIFF5 file (root Book only) with an embedded BIFF8 workbook
         c.storages, sparents = ["MBD0001"], [0]
         items = [("Book", content(), 0), ("Workbook", content(), 1)]
-    else:
+    elif shape == "vba2":
         # the VBA project of the file and the VBA project of an embedded workbook: the same storage and
-        # stream names below different parents
+        # stream names below different parents, at different depths
         c.storages = ["_VBA_PROJECT_CUR", "VBA", "MBD0001", "_VBA_PROJECT_CUR", "VBA"]
         sparents = [0, 1, 0, 3, 4]
         items = []
@@ -634,13 +820,38 @@ def dup_case(rng, cid, ss):
         if rng.random() < 0.5:
             items.append(("Workbook", content(), 0))
             items.append(("Workbook", content(), 3))
+    elif shape == "vba_same_depth":
+        # an embedded Word document with macros: MBD0001/Macros... one level up, so that dir and the module
+        # streams of the two projects sit at the SAME depth: _VBA_PROJECT_CUR/VBA/dir and Macros/VBA/dir
+        c.storages = ["_VBA_PROJECT_CUR", "VBA", "Macros", "VBA"]
+        sparents = [0, 1, 0, 3]
+        items = []
+        for nm in ("dir", "Module1", "ThisDocument" if rng.random() < 0.5 else "ThisWorkbook"):
+            items.append((nm, content(), 2))
+            items.append((nm, content(), 4))
+        items.append(("Workbook", content(), 0))
+    elif shape == "mbd_same_depth":
+        # several embedded objects holding the same names at the same depth
+        k = rng.randrange(2, 5)
+        c.storages = ["MBD%04d" % (j + 1) for j in range(k)]
+        sparents = [0] * k
+        items = [("Workbook", content(), 0)] if rng.random() < 0.7 else [("Book", content(), 0)]
+        for j in range(k):
+            items.append(("Workbook", content(), j + 1))
+            if rng.random() < 0.5:
+                items.append(("\x01Ole", content(), j + 1))
+    else:
+        # (outside the domain of the Xls::new statements) a root STORAGE named Workbook next to the root's Book stream,
+        # holding a stream Workbook itself
+        c.storages, sparents = ["Workbook"], [0]
+        items = [("Book", content(), 0), ("Workbook", content(), 1)]
     used = set(ukey(n) for n in c.storages) | set(ukey(n) for n, _, _ in items)
     for _ in range(rng.randrange(0, 3)):
         items.append((gen_name(rng, used), content(), rng.randrange(0, len(c.storages) + 1)))
     rng.shuffle(items)
     c.streams = [(n, b) for n, b, _ in items]
     c.parents = sparents + [p for _, _, p in items]
-    return finish_case(rng, c, random_slots=0.7)
+    return finish_case(rng, c, random_slots=0.7, linkmode=rng.choice(["legal", "legal", "legal", "chain", "chain", "none"]))
 
 def dup_cases(rng, n):
     return [dup_case(rng, "dn%d" % k, rng.choice([512, 512, 4096])) for k in range(n)]
@@ -697,8 +908,8 @@ def e2e_case(rng, cid, ss, shape, order, sa, sb):
         sl = c.lay["slots"]
         if sl[pair[0]] > sl[pair[1]]:
             sl[pair[0]], sl[pair[1]] = sl[pair[1]], sl[pair[0]]
-    c.links = gen_links(rng, c.storages, c.streams, c.parents, c.lay["slots"])
-    c.legal_meant = True
+    c.linkmode = rng.choice(["legal", "legal", "legal", "chain", "chain", "none"])
+    c.links = gen_links(rng, c.storages, c.streams, c.parents, c.lay["slots"], c.linkmode)
     return c
 
 def e2e_describe(c):
@@ -711,7 +922,7 @@ def e2e_describe(c):
             b = c.streams[k - nst][1]
             objs.append("%s (slot %d, %d bytes%s)" % (path_of(c, k), c.lay["slots"][k], len(b),
                                                       ", workbook A" if b is c.sa else ", workbook B" if b is c.sb else ""))
-    return "%s; sector size %d, layout %s" % (", ".join(objs), c.ss, c.lay["mode"])
+    return "%s; sector size %d, layout %s, links %s" % (", ".join(objs), c.ss, c.lay["mode"], c.linkmode)
 
 def run_e2e(ctx, npairs):
     """Xls::new + sheet_names + worksheet_range of every sheet on containers holding two different workbooks
@@ -727,7 +938,7 @@ def run_e2e(ctx, npairs):
             r = Case()
             r.cid, r.ss, r.tag = "er%d%s" % (p, which), 512, "xls_e2e_ref"
             r.storages, r.streams, r.parents = [], [("Workbook", b)], [0]
-            finish_case(rng, r, mode="sequential", surplus=False)
+            finish_case(rng, r, mode="sequential", surplus=False, linkmode="legal")
             pr.append(r)
         refs.append(pr)
         for k, (shape, order) in enumerate(E2E_SHAPES):
@@ -743,7 +954,7 @@ def run_e2e(ctx, npairs):
         if f is None:
             ctx.disagreements.append({"function": "cfb_write", "case": wl(c)[:3000], "impl": "(n/a)", "model": enc.get(c.cid, "")[:200]})
             continue
-        c.valid, c.known, c.fuel, c.legal, c.unique = f["valid"], f["known"], f["fuel"], f["legal"], f["unique"]
+        take_written(c, f)
         if not check_written(ctx, c, wl(c)):
             continue
         c.path = os.path.join(d, c.cid + ".xls")
@@ -799,23 +1010,20 @@ def run_e2e(ctx, npairs):
             ctx.disagreements.append({"function": "Xls::new/parse_workbook vs workbook_or_book", "case": c.oline, "impl": got[:2000],
                                       "model": "reads workbook %s: %s" % ("A" if pred is ref["A"] else "B", pred[:2000]),
                                       "generator": gl[:20000]})
-        # the model's classifier against the bytes the model reads
-        if w.startswith("ok:") and ((c.known == "-") != (w == "ok:" + (c.sa if c.expect == "A" else c.sb).hex())):
-            ctx.disagreements.append({"function": "known_C13(model)", "case": gl[:20000], "impl": "(n/a)",
-                                      "model": "known=%s, w reads workbook %s, the root storage's workbook is %s" % (
-                                          c.known, "A" if w == "ok:" + c.sa.hex() else "B", c.expect)})
+        ctx.count("e2e:links:" + c.linkmode)
+        if regime(c) != "tree" and c.shape not in ("a", "b"):
+            # no hierarchy written: the flat scan takes the first entry of the name; the model tie above is all
+            ctx.count("e2e:flat_scan(tie only)")
+            drop(c)
+            continue
         want = ref[c.expect]
         if got == want:
-            if c.known != "-":
-                ctx.count("e2e:known_class_did_not_manifest")
-                if ctx.distribution["e2e:known_class_did_not_manifest"] <= 3:
-                    ctx.notes.append("known class %s did not manifest: %s reads the root storage's workbook (%s)" % (c.known, c.cid, e2e_describe(c)))
             ctx.count("e2e:reads_root_workbook")
-            drop(c)
-        elif c.known == "shadowed_workbook":
-            ctx.count("known_class:shadowed_workbook")
-            ctx.known_hits["shadowed_workbook"] = {"case": gl[:4000], "expected": want[:300], "actual": got[:300],
-                                                   "container": e2e_describe(c)}
+            if c.shape in ("c", "d", "e"):
+                nst = len(c.storages)
+                emb = [c.lay["slots"][nst + k] for k, (n, _) in enumerate(c.streams) if c.parents[nst + k] == 1]
+                rootw = [c.lay["slots"][nst + k] for k, (n, _) in enumerate(c.streams) if c.parents[nst + k] == 0 and n in ("Workbook", "Book")]
+                ctx.count("e2e:reads_root_workbook:embedded_workbook_in_%s_slot" % ("lower" if min(emb) < min(rootw) else "higher"))
             drop(c)
         else:
             # (the file stays: the replay opens it again)
@@ -834,7 +1042,8 @@ def malformed_cases(rng, valid_cases, n):
     for k in range(n):
         c = rng.choice(pool)
         b = bytearray(bytes.fromhex(c.file))
-        kind = rng.choice(["flip_header", "flip_any", "truncate", "truncate_sector", "fat_cycle", "dword", "empty", "short"])
+        kind = rng.choice(["flip_header", "flip_any", "truncate", "truncate_sector", "fat_cycle", "dword", "empty", "short",
+                           "dir_link", "dir_link", "dir_link"])
         hs = 512 if c.ss == 512 else 4096
         if kind == "flip_header":
             for _ in range(rng.randrange(1, 3)):
@@ -857,6 +1066,17 @@ def malformed_cases(rng, valid_cases, n):
         elif kind == "dword":
             p = rng.randrange(0, max(1, len(b) - 4)) & ~3
             b[p:p + 4] = struct.pack("<I", rng.choice([0, 1, EOC, FREE, 0xFFFFFFFC, 0xFFFFFFFD, 0xFFFFFFFA, 0x7FFFFFFF, rng.randrange(1 << 32), rng.randrange(64)]))
+        elif kind == "dir_link":
+            # sibling / child ids of directory entries overwritten: cycles, shared nodes, ids out of the array
+            per = c.ss // 128
+            nsl = len(c.lay["dir"]) * per
+            used = [0] + list(c.lay["slots"])
+            for _ in range(rng.randrange(1, 4)):
+                e = rng.choice(used) if rng.random() < 0.8 else rng.randrange(nsl)
+                off = hs + c.lay["dir"][e // per] * c.ss + (e % per) * 128 + rng.choice([68, 72, 76])
+                v = rng.choice([rng.choice(used), rng.choice(used), e, 0, nsl, nsl + 3, FREE, EOC, rng.randrange(nsl), 0x80000000])
+                if off + 4 <= len(b):
+                    b[off:off + 4] = struct.pack("<I", v)
         elif kind == "empty":
             b = bytearray()
         elif kind == "short":
@@ -883,7 +1103,10 @@ def run_malformed(ctx, cases):
 
 # ------------------------------------------------------------------ end to end on real fixtures
 def py_cfb_read(data):
-    """independent reader of a well-formed compound file: [(name, type, bytes)] in directory order"""
+    """independent reader of a well-formed compound file: the objects below the root storage as
+    [(name, type, bytes, parent)], storages first (each after the storage that holds it), then streams;
+    parent: 0 = the root storage, j = the j-th storage of the list.  The hierarchy is read from the child /
+    sibling ids; entries no storage links to are dropped."""
     if data[:8] != bytes.fromhex("D0CF11E0A1B11AE1"):
         raise ValueError("signature")
     shift = struct.unpack_from("<H", data, 30)[0]
@@ -917,9 +1140,10 @@ def py_cfb_read(data):
         nl = struct.unpack_from("<H", e, 64)[0]
         typ = e[66]
         name = e[:max(0, nl - 2)].decode("utf-16le")
+        left, right, child = struct.unpack_from("<III", e, 68)
         start = struct.unpack_from("<I", e, 116)[0]
         size = struct.unpack_from("<Q", e, 120)[0] if ss == 4096 else struct.unpack_from("<I", e, 120)[0]
-        ents.append((name, typ, start, size))
+        ents.append((name, typ, start, size, left, right, child))
     root = ents[0]
     # (issue444.xls: no mini stream, root start = FREESECT; calamine only follows the root chain
     #  when the header declares mini-FAT sectors)
@@ -928,23 +1152,57 @@ def py_cfb_read(data):
     if nminifat:
         mf = chain(minifat_start, fat, sect)
         minifat = list(struct.unpack("<%dI" % (len(mf) // 4), mf))
-    out = []
-    for name, typ, start, size in ents[1:]:
-        if typ == 2:
-            if size < 4096:
-                b = chain(start, minifat, lambda i: mini[i * 64:(i + 1) * 64])[:size] if size else b""
-            else:
-                b = chain(start, fat, sect)[:size]
-            out.append((name, 2, b))
-        elif typ == 1:
-            out.append((name, 1, b""))
-    return out
+    def content(i):
+        name, typ, start, size = ents[i][:4]
+        if size < 4096:
+            return chain(start, minifat, lambda i: mini[i * 64:(i + 1) * 64])[:size] if size else b""
+        return chain(start, fat, sect)[:size]
+    def kids(i):
+        out, todo, seen = [], [ents[i][6]], set()
+        while todo:
+            j = todo.pop()
+            if j >= len(ents) or j in seen or j == 0:
+                continue
+            seen.add(j)
+            out.append(j)
+            todo += [ents[j][4], ents[j][5]]
+        return sorted(out)
+    storages, streams = [], []          # (entry id, parent number)
+    todo = [(0, 0)]
+    while todo:
+        i, num = todo.pop(0)
+        for j in kids(i):
+            if ents[j][1] == 1:
+                storages.append((j, num))
+                todo.append((j, len(storages)))
+            elif ents[j][1] == 2:
+                streams.append((j, num))
+    return ([(ents[j][0], 1, b"", p) for j, p in storages] +
+            [(ents[j][0], 2, content(j), p) for j, p in streams])
+
+def container_of(ents):
+    storages = [n for n, t, _, _ in ents if t == 1]
+    streams = [(n, b) for n, t, b, _ in ents if t == 2]
+    parents = [p for _, t, _, p in ents if t == 1] + [p for _, t, _, p in ents if t == 2]
+    return storages, streams, parents
+
+def embed(a, b, name):
+    """the objects of a, plus a storage `name` in the root holding the whole tree of b"""
+    sa, ma, pa = container_of(a)
+    sb, mb, pb = container_of(b)
+    na, nb = len(sa), len(sb)
+    storages = sa + [name] + sb
+    emb = na + 1                                        # number of the new storage
+    shift = lambda p: emb if p == 0 else p + emb
+    parents = pa[:na] + [0] + [shift(p) for p in pb[:nb]] + pa[na:] + [shift(p) for p in pb[nb:]]
+    return storages, ma + mb, parents, (na, len(ma))
 
 def run_fixtures(ctx, per_file):
     rng = ctx.rng
     d = vlib.tmpdir(ctx)
     files = [p for e, p in vlib.fixtures({"xls", "xla"}) if os.path.getsize(p) > 0]
     jobs, wlines = [], []
+    parsed = {}
     for p in files:
         data = open(p, "rb").read()
         try:
@@ -952,21 +1210,46 @@ def run_fixtures(ctx, per_file):
         except Exception as ex:
             ctx.notes.append("fixture %s not parsed by the Python reader: %r" % (os.path.basename(p), ex))
             continue
-        seen, storages, streams = set(), [], []
-        for name, typ, b in ents:
-            if name in seen or not name:
-                continue              # calamine only ever sees the first entry of a name
-            seen.add(name)
-            (storages if typ == 1 else streams).append(name if typ == 1 else (name, b))
+        parsed[p] = ents
+        storages, streams, parents = container_of(ents)
         for k in range(per_file):
             c = Case()
             c.cid = "f%d_%d" % (len(jobs), k)
             c.ss = rng.choice([512, 4096])
-            c.storages, c.streams, c.src = storages, streams, p
-            # (the reader above flattens the hierarchy: every object is re-emitted in the root storage)
-            c.parents = [0] * (len(storages) + len(streams))
+            c.storages, c.streams, c.parents, c.src, c.kind = storages, streams, parents, p, "relayout"
             c.lay = gen_layout(rng, c.ss, storages, streams)
-            c.links = gen_links(rng, storages, streams, c.parents, c.lay["slots"])
+            c.linkmode = rng.choice(["legal", "legal", "chain"])
+            c.links = gen_links(rng, storages, streams, c.parents, c.lay["slots"], c.linkmode)
+            jobs.append(c)
+            wlines.append(wl(c))
+    # another workbook's whole tree as an embedded object next to the fixture's own: the fixture's workbook and
+    # VBA project must still be the ones read, wherever the embedded entries sit in the directory array
+    vba = [p for p in parsed if any(n == "_VBA_PROJECT_CUR" for n, _, _, _ in parsed[p])]
+    small = [p for p in parsed if os.path.getsize(p) < 200000]
+    pairs = [(a, b) for a in vba for b in vba if a != b]
+    for _ in range(per_file * 3):
+        if len(small) >= 2:
+            pairs.append(tuple(rng.sample(small, 2)))
+        if vba and small:
+            pairs.append((rng.choice(small), rng.choice(vba)))
+    for a, b in pairs:
+        for order in ("embedded_first", "any"):
+            c = Case()
+            c.cid = "fe%d" % len(jobs)
+            c.ss = rng.choice([512, 4096])
+            c.storages, c.streams, c.parents, (na, nma) = embed(parsed[a], parsed[b], rng.choice(["MBD0001", "MBD00A7F3C2"]))
+            c.src, c.kind, c.emb = a, "embedded:" + order, b
+            c.lay = gen_layout(rng, c.ss, c.storages, c.streams)
+            if order == "embedded_first":
+                # the embedded tree takes the lowest directory slots
+                n_st, n_all = len(c.storages), len(c.storages) + len(c.streams)
+                own = list(range(na)) + list(range(n_st, n_st + nma))
+                other = [k for k in range(n_all) if k not in own]
+                sl = sorted(c.lay["slots"])
+                for k, x in zip(other + own, sl):
+                    c.lay["slots"][k] = x
+            c.linkmode = rng.choice(["legal", "legal", "chain"])
+            c.links = gen_links(rng, c.storages, c.streams, c.parents, c.lay["slots"], c.linkmode)
             jobs.append(c)
             wlines.append(wl(c))
     enc = ctx.run_model(wlines)
@@ -975,30 +1258,60 @@ def run_fixtures(ctx, per_file):
     for p in files:
         lines.append("orig:%s\topen\txls\t%s\t%s" % (os.path.basename(p), p, calls))
     for c in jobs:
-        f = enc.get(c.cid, "").split("|")
-        if len(f) != 6 or f[1] != "1":
+        f = parse_written(enc.get(c.cid, ""))
+        if f is None or not f["valid"] or not f["linked"]:
             ctx.disagreements.append({"function": "cfb_write(fixture)", "case": wlines[jobs.index(c)][:3000], "impl": "(n/a)",
-                                      "model": "|".join(f[1:])[:200]})
+                                      "model": "|".join(enc.get(c.cid, "").split("|")[1:])[:200]})
             continue
-        ctx.count("fixture_tree_legal:%s" % f[4])
+        ctx.count("fixture_tree_legal:%d" % f["legal"])
         path = os.path.join(d, c.cid + ".xls")
-        open(path, "wb").write(bytes.fromhex(f[0]))
+        open(path, "wb").write(bytes.fromhex(f["file"]))
         c.path = path
         lines.append("%s\topen\txls\t%s\t%s" % (c.cid, path, calls))
         meta[c.cid] = c
     impl = ctx.run_impl(lines)
+    # an oracle that does not go through calamine: a fixture whose _VBA_PROJECT_CUR/VBA storage holds n module
+    # streams (every stream but dir, _VBA_PROJECT, PROJECT*, __SRP_*) must open, and vba_project() must list n
+    # modules whose source begins with "Attribute VB_" (the re-laid-out files are compared with this output)
+    for p in vba:
+        ents = parsed[p]
+        stor = [n for n, t, _, _ in ents if t == 1]
+        par = {j + 1: q for j, (n, t, _, q) in enumerate([e for e in ents if e[1] == 1])}
+        cur = [j + 1 for j, n in enumerate(stor) if n == "_VBA_PROJECT_CUR" and par[j + 1] == 0]
+        vst = [j + 1 for j, n in enumerate(stor) if n == "VBA" and cur and par[j + 1] == cur[0]]
+        if not vst:
+            continue
+        mods = [n for n, t, _, q in ents if t == 2 and q == vst[0] and n not in ("dir", "_VBA_PROJECT")
+                and not n.startswith("__SRP_") and not n.startswith("PROJECT")]
+        out = impl.get("orig:" + os.path.basename(p)) or ""
+        ctx.traces += 1
+        ctx.count("fixture_vba_oracle:%d_modules" % len(mods))
+        listed = out.split("M[", 1)[1].split("]", 1)[0].split(",") if "M[" in out else []
+        texts = [x.split(":", 1)[1] if ":" in x else "" for x in listed if x]
+        good = len(texts) == len(mods) and all(t.startswith("Attribute VB_".encode().hex()) for t in texts)
+        if not good:
+            ctx.violations.append({"case": "orig:%s\topen\txls\t%s\t%s" % (os.path.basename(p), p, calls),
+                                   "expected": "vba_project() listing %d modules (streams %s of _VBA_PROJECT_CUR/VBA), each source "
+                                               "beginning with 'Attribute VB_'" % (len(mods), ", ".join(mods)),
+                                   "actual": out[:600], "model": "(an independent reading of the compound file)",
+                                   "what": "Xls::new + vba_project() on the fixture %s, which holds a VBA project in _VBA_PROJECT_CUR/VBA" % os.path.basename(p)})
     for cid, c in meta.items():
         want = impl.get("orig:" + os.path.basename(c.src))
         got = impl.get(cid)
         ctx.traces += 1
-        ctx.count("fixture_relayout:ss%d" % c.ss)
+        ctx.count("fixture_%s:ss%d" % (c.kind, c.ss))
         ctx.count("fixture_outcome:" + ("openerr" if (want or "").startswith("openerr") else "ok"))
-        ctx.nontrivial("fixture" + c.src + lay_text(c.lay))
+        if c.kind != "relayout" and "vba=" in (want or "") and "vba=none" not in (want or ""):
+            ctx.count("fixture_embedded:own_vba_project_read")
+        ctx.nontrivial("fixture" + c.src + c.kind + getattr(c, "emb", "") + lay_text(c.lay))
         if got != want:
+            what = ("Xls::new + worksheet_range/vba_project of %s re-emitted with sector size %d, layout %s, links %s" % (
+                        os.path.basename(c.src), c.ss, c.lay["mode"], c.linkmode))
+            if c.kind != "relayout":
+                what += ", with the whole tree of %s embedded as a storage next to it (%s)" % (os.path.basename(c.emb), c.kind)
             ctx.violations.append({"case": "%s\topen\txls\t%s\t%s" % (cid, c.path, calls), "expected": (want or "")[:3000],
                                    "actual": (got or "")[:3000], "model": "(the model is not involved: the same streams re-laid out by cfb_write)",
-                                   "what": "Xls::new + worksheet_range/vba_project of %s re-emitted with sector size %d, layout %s differs from the original; generator line %s"
-                                           % (os.path.basename(c.src), c.ss, c.lay["mode"], wl(c)[:2000])})
+                                   "what": what + " differs from the original; generator line %s" % wl(c)[:2000]})
         else:
             try:
                 os.remove(c.path)
@@ -1024,7 +1337,13 @@ def run(ctx):
         cases.append(make_case(rng, "r%d" % k, rng.choice([512, 512, 4096])))
     # names that are unique per storage only: dual-format files, embedded workbooks, two VBA projects
     cases += dual_cases(rng, ctx.scale(60, 600))
-    cases += dup_cases(rng, ctx.scale(60, 600))
+    cases += dup_cases(rng, ctx.scale(80, 800))
+    # links that are no tree over the hierarchy (cycles, shared nodes, dangling ids, the root as a child): model tie
+    for k in range(ctx.scale(120, 1200)):
+        c = make_case(rng, "k%d" % k, rng.choice([512, 512, 4096]), nstor=rng.choice([0, 1, 2, 3]),
+                      sizes=[gen_size(rng, 512) % 5000 for _ in range(rng.randrange(1, 6))], linkmode=rng.choice(["legal", "chain", "none"]))
+        damage_links(rng, c)
+        cases.append(c)
     # one file whose FAT really needs more than 109 sectors (7.2 MB, 512-byte sectors): the FAT
     # sectors listed in the DIFAT sector describe the end of the file
     cases = big_cases(ctx) + cases
